@@ -367,6 +367,15 @@ def gen_history(rng, tree, cfg):
             steps.append({"op": "toggle_pxd", "file": m})
         else:
             steps.append({"op": "clock_jump", "dt": rng.choice([-50.0, -5.0, 30.0])})
+    if rng.random() < 0.3:
+        # a syntax error in one module: the build fails part-way (fault); after the fix everything stale must be rebuilt
+        pyx = [m for m in mods if m.endswith(".pyx")]
+        if pyx:
+            m = rng.choice(pyx)
+            k = rng.randrange(1, len(steps) + 1)
+            steps[k:k] = [{"op": "break", "file": m, "dt": rng.choice([0.5, 1.0, 2.0])},
+                          {"op": "invoke", "order": rng.sample(mods, len(mods)), "force": False},
+                          {"op": "fix", "file": m, "dt": rng.choice([0.0, 0.5, 1.0, 2.0])}]
     steps.append({"op": "invoke", "order": rng.sample(mods, len(mods)), "force": False})
     return steps
 
@@ -424,6 +433,15 @@ def simulate(case, rundir):
             probe("edits")
             if st["dt"] == 0.0:
                 probe("equal_stamp_edit")
+        elif op in ("break", "fix"):
+            if st["file"] not in tree:
+                continue
+            v = abs(tree[st["file"]]["v"]) + 1
+            tree[st["file"]]["v"] = -v if op == "break" else v
+            now[0] += st["dt"]
+            write(st["file"])
+            log.append((op, st["file"], st["dt"]))
+            probe("syntax_error_introduced" if op == "break" else "syntax_error_fixed")
         elif op == "touch":
             if st["file"] not in tree:
                 continue
@@ -544,9 +562,34 @@ def simulate(case, rundir):
             if "lost" in r or "error" in r:
                 raise core.HarnessError("e2 server: %r" % (r,))
             r = r["ok"]
-            if r["err"]:
+            broken = [m for m in order if tree[m]["v"] < 0]
+            if r["err"] and not broken:
                 raise core.HarnessError("cythonize failed on a generated tree (generator bug?): %s" % r["err"])
             now[0] += 1.0
+            if broken:
+                # fault: the build stops at the first module that does not compile.  Which modules were reached depends on
+                # cythonize's internal order, so this invocation is checked one-sidedly and the state is then taken from disk.
+                probe("failed_invocations")
+                if not r["err"] and any(expect[m] for m in broken):
+                    viol.append({"klass": "broken-module-built-without-error", "step": si, "module": broken[0], "detail": "cythonize reported success"})
+                for m in order:
+                    c = c_of(m)
+                    cp = os.path.join(root, c)
+                    after = (os.stat(cp).st_mtime_ns, core.digest(open(cp, "rb").read().decode("latin1"))) if os.path.exists(cp) else None
+                    changed = after != before[m]
+                    log.append(("invoke-failed", si, m, changed))
+                    if m in broken:
+                        # if a rebuild was due, whatever is left of its C file must not look up to date
+                        if expect[m] and after is not None and generated(c) and mtime(c) >= max(mtime(f) for f in m_closure(tree, m)):
+                            viol.append({"klass": "failed-compile-left-c-file-that-looks-up-to-date", "step": si, "module": m,
+                                         "detail": "C file of a module with a syntax error is marked and not older than its inputs"})
+                    elif changed and not expect[m]:
+                        viol.append({"klass": "spurious-rebuild", "step": si, "module": m, "detail": "rebuilt during a failing invocation although up to date",
+                                     "closure": closures[m]})
+                    elif changed and after is not None:
+                        stamp(c, now[0])
+                        probe("regenerated")
+                continue
             for m in order:
                 c = c_of(m)
                 cp = os.path.join(root, c)
